@@ -88,7 +88,7 @@ def _mutate_settings(rng, th, ob):
     elif k == "sv":
         th["FactScaleVar"] = not th.get("FactScaleVar", True)
     elif k == "proj":
-        ob["ProjectileDIS"] = "positron" if ob["ProjectileDIS"] == "electron" else "electron"
+        ob["ProjectileDIS"] = "positron" if ob.get("ProjectileDIS", "electron") == "electron" else "electron"
     return th, ob
 
 
